@@ -10,3 +10,18 @@ PROPS["SMOKE"] = {
         {"name": "smoke.race", "test": "TestVerifSmoke", "shards": 4, "race": True},
     ],
 }
+
+PROPS["C11"] = {
+    "level": "exploration",
+    "rule": "PRNG-generated RPCs carrying every field kind (published messages with all six fields and unknown fields, "
+            "subscriptions with partial flags, GRAFT, PRUNE with PX+backoff, IHAVE, IWANT, IDONTWANT, extensions, partial, "
+            "testExtension; element sizes 0..>limit) split at every limit 100..160 plus size-1,size,size+1 and PRNG limits; "
+            "plus all RPCs of <=3 kinds x 3 element sizes x count 1..2 at 12 limits (C11.small, exhaustive); distinct = "
+            "(set of field kinds, size class, whether any split produced >1 fragment); non-trivial = >=2 kinds and at least "
+            "one multi-fragment split",
+    "monitors": [
+        {"name": "C11.split", "test": "TestVerifC11Split", "shards": 16, "bubble": False},
+        {"name": "C11.small", "test": "TestVerifC11Small", "shards": 16, "bubble": False},
+        {"name": "C11.send", "test": "TestVerifC11Send", "shards": 16},
+    ],
+}
